@@ -8,6 +8,9 @@ TESTS = {
     'nf_is_in_range': dict(fns=['is_in_range'], props=['C10', 'C08', 'C13'], bound='one-hot vectors: every index x values within 12 of each bound x the (lo,hi) pairs the crate uses'),
     'nf_hint_unpack': dict(fns=['hint_bit_unpack', 'sig_decode'], props=['C08', 'C02', 'C05', 'C13'],
                            bound='all 6^5 strings over {0,1,2,3,4,255} at k=2, omega=3; structured malformations at the three real sizes'),
+    'nf_roundtrip_keys': dict(fns=['private_to_public_key', 'get_public_key', 'expand_public', 'expand_private', 'into_bytes', 'try_from_bytes',
+                                   'key_gen_internal', 'keygen_from_seed'], props=['C01', 'C11', 'C09'],
+                              bound='2 seeds x 3 parameter sets x {pure, SHA-256, SHA-512, SHAKE128} x {generated, round-tripped, derived} keys, 255-byte context (a sample, not a proof)'),
     'nf_sk_fields': dict(fns=['sk_decode', 'expand_private', 'try_from_bytes', 'bit_unpack', 'is_in_range'], props=['C10', 'C13'],
                          bound='every s1/s2 field position x every field value, on one honestly generated key per parameter set'),
 }
